@@ -11,7 +11,7 @@ use std::cmp::Ordering;
 use rlib_num_traits::ZeroOne;
 use rlib_show::{Show, ShowSettings};
 
-#[derive(Clone, Copy, PartialEq, Eq)]
+#[derive(Clone, Copy)]
 #[repr(align(16))]
 #[allow(non_camel_case_types)]
 pub struct f80([u8; 10]);
@@ -92,6 +92,13 @@ define_f80_assign_op!(MulAssign, mul_assign, mul);
 define_f80_assign_op!(DivAssign, div_assign, div);
 
 define_f80_unary_op!(Neg, neg, "fchs");
+
+impl PartialEq for f80 {
+    fn eq(&self, rhs: &f80) -> bool {
+        // numeric comparison like f64: -0 == +0 and NaN != NaN, consistent with partial_cmp
+        *self <= *rhs && *self >= *rhs
+    }
+}
 
 impl PartialOrd<f80> for f80 {
     fn lt(&self, rhs: &f80) -> bool {
